@@ -192,6 +192,12 @@ def gen() -> None:
 def _payload(rng, B: bytes, lb: bytes) -> bytes:
     atoms_all = [b"\r", b"\n", b"\r\n", b"-", b"--", b"a", b"bc", b"\x00\xff", "é€😀".encode(), "ü".encode() * 3, B[: max(1, len(B) // 2)], b"--" + B[:-1],
                  b"--" + B, lb + b"--" + B[:-1], lb + b"-", lb, b"x" * 40, b" ", b"\t", B, lb + b"--" + B[:-1] + b"!"]
+    # look-alike delimiter lines: the boundary with ONE byte replaced (at every position holding a character that is special
+    # in a regular expression, and at a random one): equal to the delimiter for a matcher that treats such a byte as a wildcard
+    spots = [i for i, c in enumerate(B) if c in b".+*?()[]{}|^$\\"] or [rng.randrange(len(B))]
+    for i in spots[:3]:
+        la = B[:i] + (b"x" if B[i:i + 1] != b"x" else b"y") + B[i + 1:]
+        atoms_all += [lb + b"--" + la + lb, lb + b"--" + la + b"--" + lb, lb + b"--" + la]
     if lb == b"\n":
         atoms = [a for a in atoms_all if b"\r" not in a]
     elif lb == b"\r":
@@ -210,7 +216,9 @@ def _payload(rng, B: bytes, lb: bytes) -> bytes:
 
 def gen_body(rng, malformed: bool = False):
     """a multipart body from the render grammar: (boundary, body bytes, description)"""
-    B = rng.choice([b"B", b"bound", b"----WebKitFormBoundaryAb12", b"-x", b"a-b", b"0123456789" * 3])
+    B = rng.choice([b"B", b"bound", b"----WebKitFormBoundaryAb12", b"-x", b"a-b", b"0123456789" * 3,
+                    # every character RFC 2046 allows in a boundary, among them the ones special in regular expressions
+                    b"a.b", b"x+y(z)", b"---------------WerkzeugFormPart_1759400000.120.5234", b"q?=:'/,", b"(", b"a b"])
     lb = rng.choice([b"\r\n", b"\r\n", b"\r\n", b"\n", b"\r"])
     pre = rng.choice([b"", b"", b"pre", b"pre" + lb + b"amble"])
     if rng.random() < 0.2:
@@ -412,6 +420,9 @@ CORPUS = [
     (b"B", b"\n--B\nContent-Disposition: form-data; name=\"a\"\n\nline1\n--Bnot\nline2\n--B\nContent-Disposition: form-data; name=\"b\"\n\n\n--B--\n"),
     (b"B", b"--B\rContent-Disposition: form-data; name=\"a\"\r\rab\r--B--\r"),
     (b"-x", b"---x\r\nContent-Disposition: form-data; name=\"a\"\r\n\r\n-\r\n---\r\n---x\r\n---x--\r\n"),
+    # a boundary with a character that is special in regular expressions, and payload lines that equal the delimiter up to
+    # that character (a matcher that does not escape the boundary takes them for delimiters)
+    (b"a.b", b"--a.b\r\nContent-Disposition: form-data; name=\"f\"; filename=\"x\"\r\n\r\nline1\r\n--axb\r\nline2\r\n--axb--\r\nline3\r\n--a.b\r\nContent-Disposition: form-data; name=\"g\"\r\n\r\nv\r\n--a.b--\r\n"),
     # a preamble longer than the first part's header block (a search position left over from the PREAMBLE state would
     # skip the blank line that ends the headers)
     (b"B", b"This is a multi-part message in MIME format. Ignore this text.\r\n--Bx\r\n--B\r\nContent-Disposition: form-data; name=\"a\"\r\n\r\nv\r\n--B\r\nContent-Disposition: form-data; name=\"b\"\r\n\r\nw\r\n--B--\r\n"),
